@@ -8,8 +8,10 @@ EXPLANATION = (
     "option struct and of the CLI's argument struct reaches the TypeSpaceSettings setter documented for it, with a value derived "
     "from that field; a collection-valued option is handed over element by element from an unfiltered iteration of the field, "
     "and a setter call is conditional only on the presence of its own option (or both branches of the condition call it); (D2) the two crate-name validators accept the same character classes; (D3) the CLI maps each "
-    "`--unknown-crates` literal to the policy of the same name and splits `rename=crate@version` at `=` and `@` in that order; the "
-    "macro puts the map key in `rename` and the text before `@` in the crate name; (D4) the macro's `Type: ?Trait + Trait` syntax "
+    "`--unknown-crates` literal to the policy of the same name; both specifier parsers are evaluated (rules/minirust.py) over a "
+    "lattice of specifiers - names with digits, hyphens, underscores, versions `*`, `!`, x, x.y.z, prerelease, with and without "
+    "rename - and must accept every valid one, take it apart as documented (`[rename=]crate@version`, `[crate@]version`) and "
+    "refuse names with other characters; the macro puts the map key in `rename` and the text before `@` in the crate name; (D4) the macro's `Type: ?Trait + Trait` syntax "
     "starts from {FromStr, Display}, no modifier inserts, `?` removes; (W1) each front end performs exactly TypeSpace::new(&settings) "
     "-> add_root_schema -> to_stream/ToTokens with no later mutation of the settings or the space, and the document it adds is the "
     "parse result of the file, never borrowed mutably or assigned to; no setter call is preceded by a conditional early exit of the "
@@ -244,30 +246,96 @@ def run(facts, rep, tier):
             got = {psrc(a["pat"]).strip('"'): src(block_last(a["body"])) for a in ms_[0]["arms"]}
             for lit, var in (("generate", "UnknownPolicy::Generate"), ("allow", "UnknownPolicy::Allow"), ("deny", "UnknownPolicy::Deny")):
                 rep.ob("C15.D3", "unknown-crates:%s" % lit, got.get(lit) == var, '"%s" => %s' % (lit, got.get(lit)), ms_[0].get("sp"))
+    # the two specifier parsers, decided by evaluation (rules/minirust.py) over a lattice of specifiers: every valid
+    # `[rename=]crate@version` (CLI) / `[crate@]version` (macro value) is accepted and taken apart as documented, and a
+    # name with a character outside [A-Za-z0-9_-] is refused
+    import minirust as mr
+
+    def vers_hook(mach, s_):
+        if s_ == "*":
+            return mr.some(("ctor", "Any", []))
+        if s_ == "!":
+            return mr.some(("ctor", "Never", []))
+        if isinstance(s_, str) and re.fullmatch(r"\d+(\.\d+){0,2}(-[0-9A-Za-z.-]+)?", s_):
+            return mr.some(("ctor", "Version", [s_]))
+        return mr.NONE
+    NAMES = ["serde", "serde_json", "a-b", "k8s", "uuid1", "x_y-2"]
+    VERS = [("*", "Any"), ("!", "Never"), ("1", "Version"), ("1.2.3", "Version"), ("0.8.22", "Version"), ("1.0.0-beta.1", "Version")]
+    RENAMES = [None, "x", "my-uuid", "u_1"]
     fs = [h for h in cli.user_fns() if "CrateSpec" in h["fn"] and h["fn"].endswith("::convert")]
     if rep.floor("C15.D3", "CLI crate specifier parser", len(fs), 1):
-        cnf = Canon(cli, fs[0], 6)
-        st = [n for n, _ in nodes(fs[0]["body"], "struct") if n["path"].endswith("CrateSpec") and "rest" not in n]
-        if rep.floor("C15.D3", "CrateSpec literal", len(st), 1):
-            fl = {k: cnf.r(v) for k, v in st[0]["fields"]}
-            SPLIT = r"if let Some\(_\) = \$&str\.find\('='\) \{ .*\(Some\(\$&str\[RangeTo\{end: \$&str\.find\('='\)~Some\}\]\.to_string\(\)\), \$&str\[RangeFrom\{start: \(\$&str\.find\('='\)~Some Add 1\)\}\]\) \} else \(None, \$&str\)"
-            ok_ren = bool(re.fullmatch(SPLIT + r"\.0", fl.get("rename", "")))
-            ok_name = bool(re.fullmatch(SPLIT + r"\.1\[RangeTo\{end: .*\.1\.find\('@'\)\?\}\]\.to_string\(\)", fl.get("name", "")))
-            ok_ver = bool(re.fullmatch(r"CrateVers::parse\(" + SPLIT + r"\.1\[RangeFrom\{start: \(.*\.1\.find\('@'\)\? Add 1\)\}\]\)\?", fl.get("version", "")))
-            rep.ob("C15.D3", "specifier-split-order", ok_ren, "split at '=' first: rename = text before '=', the rest is parsed further" if ok_ren else "specifier is not split at '=' first: rename = %s" % fl.get("rename", "")[:160])
-            rep.ob("C15.D3", "specifier-name-and-version", ok_name and ok_ver, "name = text before '@', version = CrateVers::parse(text after '@')" if ok_name and ok_ver else "name = %s ; version = %s" % (fl.get("name", "")[-80:], fl.get("version", "")[-80:]), st[0].get("sp"))
-        iscr = [x for x in calls_in(fs[0]["body"]) if x.endswith("is_crate")]
-        rep.ob("C15.D3", "specifier-validates-both-names", len(iscr) >= 2, "%d is_crate checks (rename and crate)" % len(iscr))
-    # macro: "orig@version"
+        mach = mr.Machine(cli, hooks={"parse": vers_hook})
+        bad = None
+        nsc = 0
+        try:
+            for nm_ in NAMES:
+                for vs_, vk_ in VERS:
+                    for rn_ in RENAMES:
+                        spec = ("%s=" % rn_ if rn_ else "") + "%s@%s" % (nm_, vs_)
+                        mach.fuel = 50000
+                        r_ = mach.run_fn(fs[0], [spec])
+                        nsc += 1
+                        if not (isinstance(r_, tuple) and r_[0] in ("Some", "Ok")):
+                            bad = "the valid specifier `%s` is rejected" % spec
+                            break
+                        st_ = r_[1][2] if isinstance(r_[1], tuple) and r_[1][0] == "struct" else {}
+                        got = (st_.get("name"), (st_.get("version") or (None, None))[1], st_.get("rename"))
+                        want = (nm_, vk_, mr.some(rn_) if rn_ else mr.NONE)
+                        if got != want:
+                            bad = "`%s` is taken apart as crate %r, version kind %r, rename %r (documented: crate %r, %r, rename %r)" % (spec, got[0], got[1], got[2], nm_, vk_, rn_)
+                            break
+                    if bad:
+                        break
+                if bad:
+                    break
+            for spec in ("noat", "a=b", "a b@1", "a/b@1.0.0", "x=a b@1", "x y=a@1", "a@"):
+                if bad:
+                    break
+                mach.fuel = 50000
+                r_ = mach.run_fn(fs[0], [spec])
+                nsc += 1
+                if isinstance(r_, tuple) and r_[0] in ("Some", "Ok"):
+                    bad = "the malformed specifier `%s` is accepted" % spec
+        except mr.Unknown as e_:
+            bad = "not evaluable (%s)" % e_
+        rep.ob("C15.D3", "cli-specifier-parsed-as-documented", bad is None, "evaluated on %d specifiers: `[rename=]crate@version` with digits, hyphens, underscores, `*`, `!`" % nsc if bad is None else
+               "the CLI's crate specifier parser is wrong: %s" % bad, fs[0].get("sp") or cli.fns[fs[0]["fn"]].get("sp"))
+    # macro: the map value "orig@version" / "version"
     de = [h for h in mc.user_fns() if "MacroCrateSpec" in h["fn"] and "deserialize" in h["fn"]]
     if rep.floor("C15.D3", "macro crate spec deserializer", len(de), 1):
-        cnd = Canon(mc, de[0], 5)
-        st = [n for n, _ in nodes(de[0]["body"], "struct") if "rest" not in n and {k for k, _v in n["fields"]} == {"original", "version"}]
-        ok = False
-        if st:
-            fl = {k: cnd.r(v) for k, v in st[0]["fields"]}
-            ok = bool(re.fullmatch(r"if let Some\(_\) = (.+?)\.find\('@'\) \{.*\(Some\(\1\[RangeTo\{end: \1\.find\('@'\)~Some\}\]\.to_string\(\)\), \1\[RangeFrom\{start: \(\1\.find\('@'\)~Some Add 1\)\}\]\) \} else \(None, .*\)\.0", fl.get("original", ""))) and "CrateVers::parse(" in fl.get("version", "")
-        rep.ob("C15.D3", "macro-spec-split", ok, "original = text before '@', version parsed from the rest" if ok else "macro crate spec is not split at '@' into (original, version)")
+        machm = mr.Machine(mc, hooks={"parse": vers_hook, "deserialize": lambda mach, d_: ("Ok", d_), "invalid_value": lambda mach, *a_: ("ctor", "DeError", [])})
+        bad = None
+        nsc = 0
+        try:
+            for vs_, vk_ in VERS:
+                for nm_ in [None] + NAMES:
+                    val = ("%s@" % nm_ if nm_ else "") + vs_
+                    machm.fuel = 50000
+                    r_ = machm.run_fn(de[0], [val])
+                    nsc += 1
+                    if not (isinstance(r_, tuple) and r_[0] == "Ok"):
+                        bad = "the valid value `%s` is rejected" % val
+                        break
+                    st_ = r_[1][2] if isinstance(r_[1], tuple) and r_[1][0] == "struct" else {}
+                    got = (st_.get("original"), (st_.get("version") or (None, None))[1])
+                    want = (mr.some(nm_) if nm_ else mr.NONE, vk_)
+                    if got != want:
+                        bad = "`%s` is taken apart as original %r, version kind %r (documented: original crate %r, %r)" % (val, got[0], got[1], nm_, vk_)
+                        break
+                if bad:
+                    break
+            for val in ("a b@1", "a/b@*", "serde@", "nonsense"):
+                if bad:
+                    break
+                machm.fuel = 50000
+                r_ = machm.run_fn(de[0], [val])
+                nsc += 1
+                if isinstance(r_, tuple) and r_[0] == "Ok":
+                    bad = "the malformed value `%s` is accepted" % val
+        except mr.Unknown as e_:
+            bad = "not evaluable (%s)" % e_
+        rep.ob("C15.D3", "macro-spec-split", bad is None, "evaluated on %d values: `[crate@]version`" % nsc if bad is None else
+               "the macro's crate value parser is wrong: %s" % bad, de[0].get("sp") or mc.fns[de[0]["fn"]].get("sp"))
     if dm:
         h = dm[0]
         cnm2 = Canon(mc, h, 3)
